@@ -6,7 +6,9 @@ import (
 	"flag"
 	"fmt"
 	"os"
+	"runtime"
 	"strings"
+	"time"
 )
 
 // verif harness: runs the real gengine code (current /repo working tree, -tags verif) on
@@ -138,12 +140,21 @@ func main() {
 			emit(&c)
 			return
 		}
+		base := runtime.NumGoroutine()
 		for i := lo; i < hi; i++ {
 			r := newRng(*seed*1000003 + uint64(i))
 			c := genPoolCase(r, i, mode)
 			begin(c)
 			runPoolCase(c)
 			emit(c)
+			// requests that never got an instance keep spinning in getGengine: ask for a fresh
+			// process rather than let them eat the processors of the cases to come
+			if runtime.NumGoroutine() > base+6 {
+				time.Sleep(200 * time.Millisecond)
+				if runtime.NumGoroutine() > base+6 {
+					os.Exit(3)
+				}
+			}
 		}
 	case "compile":
 		if replay != "" {
